@@ -1,5 +1,6 @@
 mod battery;
 mod c16;
+mod extras;
 mod mutate;
 mod vprint;
 
